@@ -1,4 +1,9 @@
 """C09 - CAN identifiers: range check, compound form, J1939 view, PGN based decode."""
+import json
+import os
+import subprocess
+import sys
+
 import canmatrix.canmatrix as cm
 from lib import frames as F
 
@@ -9,7 +14,15 @@ RULE = ("ops: mk (constructor, ints around 0 / 2^11 / 2^29 / 2^31 / 2^32 incl. n
         "any order, several source addresses per PGN, received id with other priority/source/destination). quick: all 2^11 standard "
         "ids for mk/compound + each field swept exhaustively with the others at boundary/random values + random; thorough: 10^6 more. "
         "Received identifiers include 29-bit ones with the number of an 11-bit frame of the matrix. "
-        "The matrix of a 'resolve' case has a history (a frame carried the received identifier, was found under it, and got its own identifier back by assignment). case 'jdec' = canmatrix.j1939_decoder.decode(id, payload, matrix) on matrices whose frames carry PGNs the bundled J1939 database knows as well, and proprietary ones. Non-trivial = distinct case other than the zero identifier.")
+        "The matrix of a 'resolve' case has a history (a frame carried the received identifier, was found under it, and got its own identifier back by assignment). case 'jdec' = canmatrix.j1939_decoder.decode(id, payload, matrix) on matrices whose frames carry PGNs the bundled J1939 database knows as well, and proprietary ones. Non-trivial = distinct case other than the zero identifier. "
+        "History stream (every op, marked 'via' / 'hist' in the case; the driver judges the same shapes): the identifier under test is obtained through "
+        "a path of the public API instead of the plain constructor (from_compound_integer; from_pgn + priority/source setters; a Frame created for "
+        "another PGN and re-targeted with Frame.pgn/.priority/.source; an 11-bit identifier turned into a J1939 one by the setters; an object that "
+        "carried another number, was read, and got the number by assignment or by the setters), and siblings obtained the same way with the same "
+        "arguments are modified before and after it (setters, plain assignment): identifiers handed out by the factories must be independent objects. "
+        "The frames of 'resolve' / 'jdec' matrices get their identifiers through these paths too; between building the matrix and decoding, the "
+        "process works on identifiers of its own (obtained for the received PGN / identifier or a frame's, then re-targeted), looks frames up by PGN, "
+        "and a frame is re-targeted to the received PGN (found there) and back.")
 EXHAUSTIVE = {"quick": False, "thorough": False}
 PARTIAL = ["the payload decoding after frame resolution is C01's; here only which frame is chosen is compared"]
 ASSUMPTIONS = ["identifiers are Python ints, the extended flag a bool (the deprecated extended=None wildcard is outside the domain)"]
@@ -92,6 +105,139 @@ def gen(rng, tier, shard, nshards):
             yield resolve_case(rng)
         else:
             yield jdec_case(rng)
+    # history stream: the same ops, the identifiers obtained through other paths of the public API, siblings modified, callers at work
+    for _ in range({"quick": 12000, "thorough": 400000}[tier] // nshards):
+        yield hist_case(rng)
+
+
+# ---------------------------------------------------------------------------------------------------------------------------------
+# paths of the public API that lead to an identifier, and what else happens to identifiers obtained the same way
+# ---------------------------------------------------------------------------------------------------------------------------------
+EXT_PATHS = ["ctor", "compound", "pgn", "pgn", "frame", "std", "assign", "setters"]
+STD_PATHS = ["ctor", "compound", "assign"]
+M29 = (1 << 29) - 1
+
+
+def pgn_of(i):
+    """generator side only (choice of inputs): the PGN a frame_by_pgn caller would ask for"""
+    return (i >> 8) & (0x3FFFF if ((i >> 16) & 0xFF) >= 240 else 0x3FF00)
+
+
+def rand_pgn(rng, pool=()):
+    c = rng.random()
+    if pool and c < 0.6:
+        return rng.choice(list(pool))
+    if c < 0.8:
+        return rng.choice([0, 0xFECA, 0xF004, 0xEF00, 0xEFFF, 0xF000, 0x3FFFF, 0x100, 0x1FF])
+    return rng.randrange(1 << 18)
+
+
+def rand_ghosts(rng, pool=()):
+    """siblings (obtained the same way, same arguments) are modified before / after the identifier under test is obtained"""
+    gs = []
+    for when in ("before", "after"):
+        for _ in range(rng.choice([0, 1, 1, 2])):
+            which = rng.choice(["prio", "src", "pgn", "pgn", "id", "flag"])
+            v = {"prio": rng.randrange(8), "src": rng.choice([0, 1, 0x21, 0xFE, 0xFF, rng.randrange(256)]), "pgn": rand_pgn(rng, pool),
+                 "id": rand_ext(rng), "flag": 0}[which]
+            gs.append([when, which, v])
+    return gs
+
+
+def rand_via(rng, ext, pool=(), paths=None, p_ghost=0.75):
+    path = rng.choice(paths or (EXT_PATHS if ext else STD_PATHS))
+    if path == "frame":
+        aux = rand_pgn(rng, pool)
+    elif path == "std":
+        aux = rng.choice([0, 0x7FF, rng.randrange(1 << 11)])
+    else:
+        aux = rng.choice([rand_ext(rng), (rand_pgn(rng, pool) << 8) | (rng.randrange(8) << 26) | rng.randrange(256)])
+    return {"path": path, "aux": aux, "ghost": rand_ghosts(rng, pool) if rng.random() < p_ghost else []}
+
+
+def hist_case(rng):
+    c = rng.random()
+    if c < 0.12:
+        ext = rng.random() < 0.8
+        i = rand_ext(rng) if ext else rng.randrange(1 << 11)
+        if rng.random() < 0.3:
+            i = (i & ~0x3FFFF00) | (rand_pgn(rng) << 8) if ext else i
+        return {"op": "fields", "c": [i, ext, rand_via(rng, ext, [pgn_of(i)] if ext else ())]}
+    if c < 0.3:
+        ext = rng.random() < 0.85
+        i = rand_ext(rng) if ext else rng.randrange(1 << 11)
+        which = rng.choice(["prio", "src", "pgn"])
+        v = {"prio": rng.choice([rng.randrange(8), 8, 255]), "src": rng.choice([rng.randrange(256), 0, 255, 256, 0x1234]),
+             "pgn": rng.choice([rand_pgn(rng), 0, rng.randrange(1 << 20)])}[which]
+        return {"op": "set", "c": [i, ext, which, v, rand_via(rng, ext, [pgn_of(i)] if ext else ())]}
+    if c < 0.4:
+        p = rand_pgn(rng)
+        return {"op": "frompgn", "c": [p, {"path": "frompgn", "aux": 0, "ghost": rand_ghosts(rng, [p])}]}
+    if c < 0.46:
+        ext = rng.random() < 0.7
+        i = rand_ext(rng) if ext else rng.randrange(1 << 11)
+        return {"op": "compound", "c": [i | (1 << 31) if ext else i, {"path": "fromcompound", "aux": 0, "ghost": rand_ghosts(rng)}]}
+    if c < 0.52:
+        ext = rng.random() < 0.7
+        i = rand_ext(rng) if ext else rng.randrange(1 << 11)
+        return {"op": "tocompound", "c": [i, ext, rand_via(rng, ext)]}
+    if c < 0.56:
+        ext = rng.random() < 0.6
+        i = rng.choice([rand_ext(rng) if ext else rng.randrange(1 << 11), rng.choice(LIMITS)])
+        return {"op": "mk", "c": [i, ext, {"path": "ctor", "aux": 0, "ghost": rand_ghosts(rng)}]}
+    if c < 0.9:
+        return with_history(rng, resolve_case(rng))
+    return with_history(rng, jdec_case(rng))
+
+
+def with_history(rng, case):
+    """the frames of the matrix get their identifiers through paths of the public API; callers work on identifiers of their own and
+    frames are re-targeted and restored between building the matrix and decoding"""
+    c = case["c"]
+    k = c["k"]
+    pool = sorted({pgn_of(f[1]) for f in c["frames"] if f[2]} | ({pgn_of(k[0])} if k[1] else set()))
+    if rng.random() < 0.5:
+        pool.append(rand_pgn(rng))
+    if k[1] and rng.random() < 0.3:
+        # the received PGN is one a frame of the matrix was created for before it was re-targeted, or one nobody carries
+        kp = rng.choice(pool)
+        k = c["k"] = [(k[0] & ~0x3FFFF00) | (kp << 8), True]
+    frames = []
+    for f in c["frames"]:
+        via = rand_via(rng, f[2], pool, p_ghost=0.4) if rng.random() < 0.7 else None
+        frames.append(list(f[:4]) + [via])
+    c["frames"] = frames
+    ext_ids = [[f[1], True] for f in frames if f[2]]
+    hist = []
+    for _ in range(rng.choice([0, 1, 1, 2, 3])):
+        h = rng.random()
+        if h < 0.55:
+            # a caller obtains an identifier of its own - for the received PGN / identifier or a frame's - and re-targets it
+            src = rng.random()
+            if src < 0.4 and k[1]:
+                i, ext = pgn_of(k[0]) << 8, True
+            elif src < 0.6:
+                i, ext = k
+            elif src < 0.85 and ext_ids:
+                i, ext = rng.choice(ext_ids)
+                if rng.random() < 0.5:
+                    i = pgn_of(i) << 8
+            else:
+                i, ext = rand_pgn(rng, pool) << 8, True
+            which = rng.choice(["pgn", "pgn", "pgn", "src", "prio", "id"])
+            v = {"pgn": rand_pgn(rng, pool), "src": rng.randrange(256), "prio": rng.randrange(8),
+                 "id": rng.choice(ext_ids)[0] if ext_ids and rng.random() < 0.7 else rand_ext(rng)}[which]
+            hist.append(["req", i, bool(ext), rng.choice(["ctor", "compound", "pgn", "pgn", "pgn", "assign", "setters"] if ext else STD_PATHS),
+                         rand_ext(rng), which, v])
+        elif h < 0.7:
+            hist.append(["bypgn", rand_pgn(rng, pool)])
+        elif h < 0.8:
+            hist.append(["dec", rand_ext(rng) if rng.random() < 0.5 or not ext_ids else rng.choice(ext_ids)[0], True])
+        else:
+            # a frame is re-targeted to another PGN (mostly the received one), looked up there, and gets its own PGN back
+            hist.append(["retarget", rng.randrange(len(frames)) if frames else 0, pgn_of(k[0]) if k[1] and rng.random() < 0.7 else rand_pgn(rng, pool)])
+    c["hist"] = hist
+    return case
 
 
 KNOWN_PGNS = [0xF004, 0xF002, 0xFE4A, 0xFEF1, 0x0100, 0xFEEE]      # PGNs the bundled j1939.dbc defines as well
@@ -158,7 +304,13 @@ def resolve_case(rng):
 def neighbours(case, rng, shard, nshards):
     for _ in range(200 // nshards + 1):
         if case["op"] == "resolve":
-            yield resolve_case(rng)
+            yield with_history(rng, resolve_case(rng)) if rng.random() < 0.5 else resolve_case(rng)
+        elif case["op"] == "jdec":
+            yield with_history(rng, jdec_case(rng)) if rng.random() < 0.5 else jdec_case(rng)
+        elif len(case["c"]) > {"fields": 2, "set": 4, "frompgn": 1, "compound": 1, "tocompound": 2, "mk": 2}.get(case["op"], 99):
+            nb = hist_case(rng)
+            if nb["op"] == case["op"]:
+                yield nb
         elif case["op"] in ("fields", "tocompound"):
             yield {"op": case["op"], "c": [rand_ext(rng), True]}
         elif case["op"] == "set":
@@ -171,16 +323,170 @@ def aid(a):
     return [a.id, bool(a.extended)]
 
 
+GETTERS = ("pgn", "j1939_pgn", "j1939_priority", "j1939_edp", "j1939_dp", "j1939_pf", "j1939_ps", "j1939_source", "j1939_destination",
+           "j1939_pdu_format", "j1939_tuple")
+
+
+def touch(a):
+    """read the whole view of an identifier once"""
+    for n in GETTERS:
+        try:
+            getattr(a, n)
+        except Exception:  # noqa
+            pass
+    try:
+        a.to_compound_integer()
+    except Exception:  # noqa
+        pass
+
+
+def build(i, ext, path, aux):
+    """the identifier (i, ext) through one path of the public API"""
+    A = cm.ArbitrationId
+    if path == "ctor":
+        return A(i, ext)
+    if path == "fromcompound":
+        return A.from_compound_integer(i)          # i: the integer as it stands
+    if path == "compound":
+        return A.from_compound_integer(i | (1 << 31) if ext else i)
+    if path == "frompgn":
+        return A.from_pgn(i)
+    if path == "assign":
+        # an object that carried another number (and was read) gets the number by plain assignment
+        a = A(aux & M29, True)
+        touch(a)
+        a.id, a.extended = i, ext
+        return a
+    if not ext:
+        return A(i, ext)
+    pgn, prio, sa = (i >> 8) & 0x3FFFF, (i >> 26) & 7, i & 0xFF
+    if path == "pgn":
+        a = A.from_pgn(pgn)
+        a.j1939_priority = prio
+        a.j1939_source = sa
+        return a
+    if path == "frame":
+        # a frame created for another PGN, re-targeted through the Frame properties
+        fr = cm.Frame("x", arbitration_id=A.from_pgn(aux & 0x3FFFF), size=8)
+        touch(fr.arbitration_id)
+        fr.source = sa
+        fr.pgn = pgn
+        fr.priority = prio
+        return fr.arbitration_id
+    if path == "std":
+        a = A(aux & 0x7FF, False)
+        touch(a)
+        a.pgn = pgn
+        a.j1939_source = sa
+        a.j1939_priority = prio
+        return a
+    if path == "setters":
+        a = A(aux & M29, True)
+        touch(a)
+        a.j1939_priority = prio
+        a.pgn = pgn
+        a.j1939_source = sa
+        return a
+    raise ValueError(path)
+
+
+def mutate(a, which, v):
+    if which == "prio":
+        a.j1939_priority = v
+    elif which == "src":
+        a.j1939_source = v
+    elif which == "pgn":
+        a.pgn = v
+    elif which == "id":
+        a.id = v
+    elif which == "flag":
+        a.extended = not a.extended
+
+
+def obtain(i, ext, via):
+    """the identifier under test; siblings obtained the same way with the same arguments are modified before and after"""
+    if not via:
+        return cm.ArbitrationId(i, ext)
+
+    def sibling(when):
+        for w, which, v in via["ghost"]:
+            if w == when:
+                try:
+                    g = build(i, ext, via["path"], via["aux"])
+                    touch(g)
+                    mutate(g, which, v)
+                    touch(g)
+                except Exception:  # noqa
+                    pass
+    sibling("before")
+    a = build(i, ext, via["path"], via["aux"])
+    sibling("after")
+    return a
+
+
+def opt(c, n):
+    return c[n] if len(c) > n else None
+
+
+def run_history(db, c):
+    """what the process does between building the matrix and decoding the received identifier"""
+    k = c["k"]
+    for h in c.get("hist") or []:
+        try:
+            if h[0] == "req":
+                x = build(h[1], h[2], h[3], h[4])
+                touch(x)
+                mutate(x, h[5], h[6])
+                touch(x)
+            elif h[0] == "bypgn":
+                db.frame_by_pgn(h[1])
+            elif h[0] == "dec":
+                db.decode(cm.ArbitrationId(h[1], h[2]), b"\x55" * 8)
+            elif h[0] == "retarget" and db.frames:
+                fr = db.frames[h[1] % len(db.frames)]
+                if fr.arbitration_id.extended:
+                    own = (fr.arbitration_id.id >> 8) & 0x3FFFF
+                    fr.pgn = h[2]
+                    try:
+                        db.frame_by_pgn(h[2])
+                        db.frame_by_id(fr.arbitration_id)
+                        db.decode(cm.ArbitrationId(k[0], k[1]), b"\x55" * 8)
+                    except Exception:  # noqa
+                        pass
+                    fr.pgn = own
+        except Exception:  # noqa
+            pass
+
+
+def observe_fresh(case):
+    """the observation of one case in a fresh interpreter: what the process did before cannot contribute (used while a failing case is
+    minimised, so that the replay file is a failing input on its own, and when such a replay is run)"""
+    from lib import core
+    harness = os.path.dirname(os.path.dirname(os.path.abspath(__file__)))
+    code = ("import sys, json; sys.path.insert(0, %r); from props import c09; "
+            "print('\\n@@' + json.dumps(c09.observe(json.loads(sys.argv[1]))))" % harness)
+    try:
+        p = subprocess.run([sys.executable, "-c", code, json.dumps({"op": case["op"], "c": case["c"]})], capture_output=True, text=True, timeout=300)
+    except (OSError, subprocess.TimeoutExpired) as e:
+        raise core.Infra("fresh observation could not run: %r" % e)
+    for line in p.stdout.split("\n"):
+        if line.startswith("@@"):
+            return json.loads(line[2:])
+    raise core.Infra("fresh observation failed: rc=%s %s" % (p.returncode, p.stderr[-800:]))
+
+
 def observe(case):
+    if case.get("fresh"):
+        return observe_fresh(case)
     op, c = case["op"], case["c"]
     try:
         if op == "mk":
-            return {"ok": aid(cm.ArbitrationId(c[0], c[1]))}
+            return {"ok": aid(obtain(c[0], c[1], opt(c, 2)))}
         if op == "compound":
-            a = cm.ArbitrationId.from_compound_integer(c[0])
+            a = obtain(c[0], False, opt(c, 1)) if opt(c, 1) else cm.ArbitrationId.from_compound_integer(c[0])
             return {"ok": aid(a) + [a.to_compound_integer()]}
         if op == "tocompound":
-            a = cm.ArbitrationId(c[0], c[1])
+            a = obtain(c[0], c[1], opt(c, 2))
             n = a.to_compound_integer()
             try:
                 back = {"ok": aid(cm.ArbitrationId.from_compound_integer(n))}
@@ -188,11 +494,11 @@ def observe(case):
                 back = {"err": F.errname(e)}
             return {"ok": [n, back]}
         if op == "fields":
-            a = cm.ArbitrationId(c[0], c[1])
+            a = obtain(c[0], c[1], opt(c, 2))
             return {"ok": {"pgn": a.pgn, "prio": a.j1939_priority, "edp": a.j1939_edp, "dp": a.j1939_dp, "pf": a.j1939_pf,
                            "ps": a.j1939_ps, "sa": a.j1939_source, "dest": a.j1939_destination}}
         if op == "set":
-            a = cm.ArbitrationId(c[0], c[1])
+            a = obtain(c[0], c[1], opt(c, 4))
             if c[2] == "prio":
                 a.j1939_priority = c[3]
             elif c[2] == "src":
@@ -201,23 +507,26 @@ def observe(case):
                 a.pgn = c[3]
             return aid(a)
         if op == "frompgn":
-            a = cm.ArbitrationId.from_pgn(c[0])
+            a = obtain(c[0], True, opt(c, 1)) if opt(c, 1) else cm.ArbitrationId.from_pgn(c[0])
             return {"ok": aid(a) + [a.pgn]}
         if op == "jdec":
             import canmatrix.j1939_decoder
             db = cm.CanMatrix()
-            for name, i, ext, j in c["frames"]:
-                fr = cm.Frame(name, arbitration_id=cm.ArbitrationId(i, ext), size=8, is_j1939=j)
+            for f in c["frames"]:
+                name, i, ext, j = f[:4]
+                fr = cm.Frame(name, arbitration_id=obtain(i, ext, opt(f, 4)), size=8, is_j1939=j)
                 fr.add_signal(cm.Signal("sig_" + name, start_bit=0, size=8, is_signed=False))
                 db.add_frame(fr)
+            run_history(db, c)
             dec = canmatrix.j1939_decoder.j1939_decoder()
             text, values = dec.decode(cm.ArbitrationId(c["k"][0], c["k"][1]), bytes([1, 2, 3, 4, 5, 6, 7, 8]), db)
             kind = "regular" if text.startswith("regular ") else "known" if text.startswith("J1939 known: ") else "other"
             return {"kind": kind, "name": text[8:] if kind == "regular" else None, "signals": sorted(values.keys()) if kind == "regular" else None}
         if op == "resolve":
             db = cm.CanMatrix()
-            for name, i, ext, j in c["frames"]:
-                fr = cm.Frame(name, arbitration_id=cm.ArbitrationId(i, ext), size=1, is_j1939=j)
+            for f in c["frames"]:
+                name, i, ext, j = f[:4]
+                fr = cm.Frame(name, arbitration_id=obtain(i, ext, opt(f, 4)), size=1, is_j1939=j)
                 fr.add_signal(cm.Signal("sig_" + name, start_bit=0, size=8, is_signed=False))
                 db.add_frame(fr)
             # the matrix has a history: one of its frames carried the received identifier a moment ago (and was found under it),
@@ -244,6 +553,7 @@ def observe(case):
                     except Exception:  # noqa
                         pass
                     f0.arbitration_id.id, f0.arbitration_id.extended = own
+            run_history(db, c)
             d = db.decode(cm.ArbitrationId(c["k"][0], c["k"][1]), b"\x55")
             if not d:
                 return {"ok": None}
@@ -269,6 +579,17 @@ def features(case, impl):
         fr = case["c"]["frames"]
         if fr and not fr[0][2]:
             yield "11-bit frame first"
+    c = case["c"]
+    if isinstance(c, list) and c and isinstance(c[-1], dict):
+        yield "via=" + c[-1]["path"]
+        yield "siblings modified=%d" % len(c[-1]["ghost"])
+    if isinstance(c, dict) and "hist" in c:
+        yield "matrix with identifier history"
+        for h in c["hist"]:
+            yield "hist:" + h[0]
+        for f in c["frames"]:
+            if len(f) > 4 and f[4]:
+                yield "frame id via=" + f[4]["path"]
     if case["op"] == "fields" and case["c"][1]:
         yield "pdu%d" % (1 if ((case["c"][0] >> 16) & 0xFF) < 240 else 2)
 
@@ -278,9 +599,54 @@ def nontrivial(case, impl):
     return case["op"] in ("resolve", "jdec") or c[0] != 0
 
 
-def shrink_candidates(case):
-    if case["op"] == "resolve":
-        fr = case["c"]["frames"]
+def _smaller(case):
+    if case["op"] in ("resolve", "jdec"):
+        c = case["c"]
+        fr = c["frames"]
+        hist = c.get("hist") or []
         for i in range(len(fr)):
-            if len(fr) > 1:
-                yield {"op": "resolve", "c": {"frames": fr[:i] + fr[i + 1:], "k": case["c"]["k"]}}
+            if len(fr) > 1 and not any(h[0] == "retarget" for h in hist):
+                yield {"op": case["op"], "c": dict(c, frames=fr[:i] + fr[i + 1:])}
+        for i in range(len(hist)):
+            yield {"op": case["op"], "c": dict(c, hist=hist[:i] + hist[i + 1:])}
+        for i, f in enumerate(fr):
+            if len(f) > 4 and f[4]:
+                yield {"op": case["op"], "c": dict(c, frames=fr[:i] + [list(f[:4]) + [None]] + fr[i + 1:])}
+                if f[4]["ghost"]:
+                    yield {"op": case["op"], "c": dict(c, frames=fr[:i] + [list(f[:4]) + [dict(f[4], ghost=[])]] + fr[i + 1:])}
+    elif isinstance(case["c"], list) and case["c"] and isinstance(case["c"][-1], dict) and case["c"][-1].get("ghost"):
+        via = case["c"][-1]
+        for i in range(len(via["ghost"])):
+            yield {"op": case["op"], "c": case["c"][:-1] + [dict(via, ghost=via["ghost"][:i] + via["ghost"][i + 1:])]}
+
+
+PLAIN_LEN = {"fields": 2, "set": 4, "frompgn": 1, "compound": 1, "tocompound": 2, "mk": 2}
+
+
+def _with_a_history(case):
+    """a failing case without a history of its own failed because of what the process did before: the same input with the histories
+    the generator attaches, a few of each kind (deterministic)"""
+    import random
+    rng = random.Random(12345)
+    op, c = case["op"], case["c"]
+    if op in ("resolve", "jdec"):
+        for _ in range(6):
+            yield with_history(rng, {"op": op, "c": {"frames": [list(f) for f in c["frames"]], "k": list(c["k"])}})
+    elif op in PLAIN_LEN and len(c) == PLAIN_LEN[op]:
+        own = {"frompgn": "frompgn", "compound": "fromcompound", "mk": "ctor"}.get(op)
+        ext = True if op == "frompgn" else bool(c[1]) if op != "compound" else False
+        for _ in range(6):
+            via = {"path": own, "aux": 0, "ghost": rand_ghosts(rng)} if own else rand_via(rng, ext, p_ghost=1.0)
+            yield {"op": op, "c": list(c) + [via]}
+
+
+def shrink_candidates(case):
+    """every candidate is observed in a fresh interpreter ("fresh"): identifiers and lookups must not depend on what the process did
+    before, so a case that fails only after other cases is no failing input on its own - the replay must be one"""
+    if not case.get("fresh"):
+        yield dict(case, fresh=1)
+        for cand in _with_a_history(case):
+            yield dict(cand, fresh=1)
+        return
+    for cand in _smaller(case):
+        yield dict(cand, fresh=1)
